@@ -86,14 +86,7 @@ PROBE_VALS = [(0, 0), (1, 2), (255, 255), (127, 128), (-1, -1), (256, 1), (1, 65
 # observing a class
 # ---------------------------------------------------------------------------------------
 def _visible(pkt):
-    names = []
-    for name, f, _, _ in pkt.get_fields():
-        dn = getattr(f, "descriptor_name", None)
-        if getattr(f, "descriptor", None) is not None and dn:
-            names.append(dn)
-        elif not name.startswith("_"):
-            names.append(name)
-    return names
+    return project.visible_fields(pkt)
 
 
 def behave(cls, PacketError):
@@ -135,6 +128,8 @@ def behave(cls, PacketError):
 
 def code_sig(fn, generic):
     """identity of the code a class runs: bytecode, constants, names - not file name, not line numbers"""
+    if fn is None:
+        return "no-such-attribute"       # an implementation that names things differently: code identity is not judged
     f = getattr(fn, "__func__", fn)
     if f is getattr(generic, "__func__", generic):
         return "GENERIC"
@@ -523,7 +518,8 @@ class CacheEngineBase(Engine):
             cls = proc.classes[0][3]
             SEAM.inside = True
             try:
-                res.append((behave(cls, PE), code_sig(cls.pack_impl, Packet.pack_impl), code_sig(cls.unpack_impl, Packet.unpack_impl)))
+                res.append((behave(cls, PE), code_sig(getattr(cls, "pack_impl", None), getattr(Packet, "pack_impl", None)),
+                            code_sig(getattr(cls, "unpack_impl", None), getattr(Packet, "unpack_impl", None))))
             finally:
                 SEAM.inside = False
         try:
@@ -547,8 +543,8 @@ class CacheEngineBase(Engine):
                 if i >= len(tw):
                     continue
                 tb, tp, tu = tw[i]
-                sp = code_sig(cls.pack_impl, Packet.pack_impl)
-                su = code_sig(cls.unpack_impl, Packet.unpack_impl)
+                sp = code_sig(getattr(cls, "pack_impl", None), getattr(Packet, "pack_impl", None))
+                su = code_sig(getattr(cls, "unpack_impl", None), getattr(Packet, "unpack_impl", None))
                 if sp not in (tp, "GENERIC") or su not in (tu, "GENERIC"):
                     which = "pack_impl" if sp not in (tp, "GENERIC") else "unpack_impl"
                     found[0] = (label_prop + ".O3-foreign-code", p.label.rstrip("0123456789"),
